@@ -23,13 +23,14 @@ def meanDiff (l : List Rat) : Rat :=
   if d.isEmpty then 0 else d.foldl (· + ·) 0 / (d.length : Nat)
 
 /-- TFLAG branch with `bounds`: one more instant, `TSTEP` (or the mean step) after the last -/
-def tflagTimes (flags : List (Int × Int)) (bounds : Bool) (tstep : Option Int) : List Rat :=
+def tflagTimes (flags : List (Int × Int)) (bounds : Bool) (tstep : Option Int) : Except String (List Rat) :=
   let out : List Rat := (decodeTflag flags).map (fun (i : Int) => (i : Rat))
-  if !bounds then out else
-  let dt : Rat := match tstep with
-    | some T => (tstepSecondsB T : Int)
-    | none => meanDiff out
-  out ++ [out.getLastD 0 + dt]
+  if !bounds then .ok out else
+  match tstep with
+  | some T => .ok (out ++ [out.getLastD 0 + ((tstepSecondsB T : Int) : Rat)])
+  | none =>
+    -- the mean of an empty difference list is NaN: datetime + NaN raises
+    if out.length < 2 then .error "TypeError" else .ok (out ++ [out.getLastD 0 + meanDiff out])
 
 /-- what `strptime('%07d %06d+0000', '%Y%j %H%M%S%z')` accepts -/
 def strptimeOk (d t : Int) : Bool :=
@@ -113,14 +114,16 @@ def cfYearlike (yeardays : Int) (unit : String) (r : Ref) (vals : List Rat) : Ex
 
 def epoch1970 : Int := Cal.instant (ymd2ord 1970 1 1) 0
 
-/-- seconds of TSTEP as `add_time_variable` slices `'%06d' % TSTEP` : `[:2] [2:4] [4:]` -/
+def numDigits : Nat → Nat → Nat
+  | 0, _ => 1
+  | fuel + 1, n => if n < 10 then 1 else 1 + numDigits fuel (n / 10)
+
+/-- seconds of TSTEP as `add_time_variable` slices `'%06d' % TSTEP` : `[:2] [2:4] [4:]`
+(with `k ≥ 6` characters: first two, next two, the rest) -/
 def tstepSecondsATV (T : Nat) : Nat :=
   if T = 0 then 0 else
-  let s := toString T
-  let s := String.ofList (List.replicate (6 - s.length) '0') ++ s
-  let cs := s.toList
-  let num (l : List Char) : Nat := (String.ofList l).toNat?.getD 0
-  3600 * num (cs.take 2) + 60 * num ((cs.drop 2).take 2) + num (cs.drop 4)
+  let k := max 6 (numDigits 30 T)
+  3600 * (T / 10 ^ (k - 2)) + 60 * (T / 10 ^ (k - 4) % 100) + T % 10 ^ (k - 4)
 
 /-- `time` variable (seconds since 1970) from the flags -/
 def atvTimeFromFlags (flags : List (Int × Int)) : List Int :=
@@ -153,7 +156,7 @@ def showExcept (f : α → String) : Except String α → String
 def run : List String → String
   | ["tflag", flags, b, ts] =>
     match parseFlags flags, parseOpt parseInt ts with
-    | some fl, some t => "ok " ++ showList showRat (tflagTimes fl (b == "1") t)
+    | some fl, some t => showExcept (showList showRat) (tflagTimes fl (b == "1") t)
     | _, _ => "err parse"
   | ["attrs", sd, st, ts, n, b] =>
     match parseInt sd, parseInt st, parseInt ts, parseNat n with
